@@ -211,3 +211,13 @@ def run(ctx):
     if im:
         r = ex(prog, im).local(0)
         ctx.check(P.call(w, P.param('state'), P.item('NUM_TRANSACTIONS', 10000))(r), 'R5', 'impl', im, 'the heartbeat path uses the same computation with NUM_TRANSACTIONS', 'impl is %s' % show(r))
+
+
+# plumbing between the interface and the analysed functions (rules/plumbing.py)
+_run_before_plumbing = run
+
+
+def run(ctx):
+    _run_before_plumbing(ctx)
+    from rules import plumbing
+    plumbing.init_applies_config(ctx, 'R5', fields=('lazily_evaluate_fee_percentiles',))
